@@ -5,7 +5,9 @@ compile errors, uncaught errors from top level / nested calls / inside fibers / 
 during class declarations / during imports, imports, and reset(); after failing snippets a fixed
 probe battery (try/finally, fiber round trip, class definition, import, closure counter, exception
 round trip, iterator chain). The model keeps one global environment and registry. Run on the hooked
-build and on the dev build (debug assertions are part of 'never makes a later snippet panic')."""
+build and on the dev build (debug assertions are part of 'never makes a later snippet panic').
+Host-API histories: sources compiled once, kept by the host and executed repeatedly (also after reset()), natives
+defined in existing and not-yet-existing modules and read back, mixed with ordinary snippets."""
 from .. import common
 from ..common import Check
 from ..gen import feat_repl
@@ -25,11 +27,17 @@ def run(tier):
         steps, mods = feat_repl.history(rng.fork(str(i)))
         plist.append({"name": "hist/%d" % i, "steps": steps, "mods": mods})
 
+    r2 = ck.rng.fork("host")
+    for i in range(300 if quick else 10000):
+        steps, mods = feat_repl.host_history(r2.fork(str(i)))
+        plist.append({"name": "host/%d" % i, "steps": steps, "mods": mods})
+
     def seen(p, m, res):
         fails = sum(1 for s in m["view"] if s.get("res") in ("error", "compile_error"))
         ck.count("snippets_run", len(m["view"]))
         ck.count("failing_snippets", fails)
         ck.count("resets", sum(1 for s in p["steps"] if s[0] == "reset"))
+        ck.count("host_api_steps", sum(1 for s in p["steps"] if s[0] in ("keep", "exec", "native", "getg")))
         if fails >= 1:
             ck.note_nontrivial(repr(p["steps"]))
         for st in res.get("steps", []):
